@@ -122,7 +122,8 @@ theorem C19_env_guard_race :
     (grun [(0, .enter 10), (0, .read), (0, .exit)]).reads = [(0, some 10)] ∧
     (grun [(0, .enter 10), (0, .read), (0, .exit)]).env = none := by decide
 
-/-- **finding F8** on the model of `Symbol::as_str`: a slice taken by one thread is left dangling by ANY later interning
+/-- **finding F8 (repaired in /repo: the interner now uses `BucketBackend`, see below)** on the model of `Symbol::as_str`
+over `StringBackend`: a slice taken by one thread is left dangling by ANY later interning
 (of any thread) that makes the buffer grow; concrete schedule: A takes `as_str` of a 4-byte name in an 8-byte buffer,
 B interns a 10-byte name, A's slice no longer points into the live allocation. (Exhibited on the real code by
 `c19 asstr` and, once, as a garbled module name in a 16-thread compilation.) -/
@@ -137,5 +138,59 @@ theorem C19_growth_invalidates_all_slices (b : Buf) (n off k : Nat) (h : b.cap <
   unfold Buf.push Buf.asStr Slice.valid
   rw [if_neg (by omega)]
   simp
+
+/-- **F8 repaired**: with the bucket backend one interning never invalidates a slice handed out before -/
+theorem C19_bucket_push_keeps_slices (b : Buckets) (s : BSlice) (n : Nat) (h : s.valid b) : s.valid (b.push n) := by
+  obtain ⟨l, hl, hle⟩ := h
+  unfold Buckets.push
+  split
+  · -- fits into the head: only the head's length grows
+    unfold Buckets.lenOf at hl
+    split at hl
+    · rename_i hi
+      exact ⟨l, by simp only [Buckets.lenOf, hi, if_true]; exact hl, hle⟩
+    · split at hl
+      · rename_i hi
+        exact ⟨b.headLen + n, by simp [Buckets.lenOf, hi], by simp at hl; omega⟩
+      · cases hl
+  · -- the head is retired as bucket `full.length` with its length unchanged
+    unfold Buckets.lenOf at hl
+    split at hl
+    · rename_i hi
+      refine ⟨l, ?_, hle⟩
+      have : s.bucket < (b.full ++ [b.headLen]).length := by simp; omega
+      simp only [Buckets.lenOf, this, if_true]
+      rw [List.getElem?_append_left hi]; exact hl
+    · split at hl
+      · rename_i hi
+        refine ⟨b.headLen, ?_, by simp at hl; omega⟩
+        have : s.bucket < (b.full ++ [b.headLen]).length := by simp; omega
+        simp only [Buckets.lenOf, this, if_true]
+        rw [hi, List.getElem?_append_right (Nat.le_refl _)]; simp
+      · cases hl
+
+/-- … and so no sequence of internings by any threads does (the interner mutex serialises them into ONE list) -/
+theorem C19_as_str_slices_stay_valid (b : Buckets) (s : BSlice) (ns : List Nat) (h : s.valid b) :
+    s.valid (ns.foldl Buckets.push b) := by
+  induction ns generalizing b with
+  | nil => exact h
+  | cons n ns ih => exact ih _ (C19_bucket_push_keeps_slices b s n h)
+
+/-- the slice `as_str` hands out for a string that has just been interned is valid to begin with -/
+theorem C19_as_str_slice_valid_when_taken (b : Buckets) (n : Nat) : ((b.push n).asStrLast n).valid (b.push n) := by
+  unfold Buckets.asStrLast BSlice.valid Buckets.lenOf
+  refine ⟨(b.push n).headLen, by simp, ?_⟩
+  unfold Buckets.push; split <;> simp <;> omega
+
+/-- non-vacuity: the schedule of `C19_as_str_slice_dangles` on the bucket backend — A's slice survives B's 10-byte name -/
+example :
+    let b0 : Buckets := (⟨[], 0, 8⟩ : Buckets).push 4
+    let sl := b0.asStrLast 4
+    sl.valid b0 ∧ sl.valid (b0.push 10) ∧ (b0.push 10).full = [4] := by
+  refine ⟨⟨4, by decide, by decide⟩, ⟨4, by decide, by decide⟩, by decide⟩
+
+/-- translator fact, pinned: /repo keeps the symbol texts in the bucket backend, the one the three theorems above are
+about (with `StringBackend` the model is `Buf` and `C19_growth_invalidates_all_slices` applies instead). -/
+theorem C19_interner_backend_pinned : Mimium.Gen.internerBackend = "BucketBackend" := by decide
 
 end Mimium.SessionLock
